@@ -46,20 +46,31 @@ def where_of(pre: Optional[int], op: int, mn: str) -> str:
 EDGE_ADDRS = frozenset((0x00000, 0xFFFFF, 0x100000, 0x1000FF))
 
 
-def touches_edge(py: Dict[str, Any], rs: Dict[str, Any]) -> bool:
+def _fetch_window(pc: int) -> set:
+    """Canonical addresses an instruction fetch at pc may read (instruction + decoder look-ahead)."""
+    return {pycore.canon(pc + i) for i in range(16)}
+
+
+def touches_edge(py: Dict[str, Any], rs: Dict[str, Any], pc: Optional[int] = None) -> bool:
     """True when either core accessed (read or wrote) the first or last byte of the external or the internal
     space, or emitted an address outside the canonical ranges (bits above 20 set, internal offset beyond 0xFF):
     the only situations in which an address wrap-around can take place."""
+    fetch = _fetch_window(pc) if pc is not None else set()
+    near_top = pc is not None and (pc & 0xFFFFF) >= 0xFFFF0
     for side in (py, rs):
-        if side.get("noncanon"):
+        if side.get("noncanon") and not near_top:
             return True
         for a, _ in side.get("writes", []):
             if a in EDGE_ADDRS:
                 return True
         for a in side.get("reads", []):
-            if a in EDGE_ADDRS:
+            if a in EDGE_ADDRS and a not in fetch:
                 return True
     return False
+
+
+def fetch_at_top(case: Dict[str, Any]) -> bool:
+    return (case["regs"]["PC"] & 0xFFFFF) >= 0xFFFF0
 
 
 def _accessed(side: Dict[str, Any]) -> set:
@@ -88,6 +99,8 @@ def compare_step(case: Dict[str, Any], py: Dict[str, Any], rs: Dict[str, Any], i
     if "err" in py:
         return out  # Python-side exception on a valid encoding is C01/C04's subject, not a C06 verdict
     if "err" in rs:
+        if (py.get("pc", 0) & 0xFFFFF) >= 0xFFFF0:
+            where = where + " @fetch-top"
         out.append(Violation("rust-error", where, f"rust error: {rs['err'][:60]}", case,
                              f"python ok len={py.get('len')}; rust: {rs['err']}"))
         return out
@@ -146,8 +159,10 @@ def compare_step(case: Dict[str, Any], py: Dict[str, Any], rs: Dict[str, Any], i
         details.append("mem " + ", ".join(f"{a:#x}: py={x:#04x} rs={y:#04x}" for a, x, y, _, _ in memdiff[:6]))
     if diffs:
         sub = ",".join(sorted(d.split(":")[0] for d in diffs))
-        if touches_edge(py, rs):
+        if touches_edge(py, rs, py.get("pc")):
             where = where + " @edge"
+        elif (py.get("pc", 0) & 0xFFFFF) >= 0xFFFF0:
+            where = where + " @fetch-top"
         elif window_alias(py, rs):
             where = where + " @alias"
         out.append(Violation(sub, where, "; ".join(diffs), case, "; ".join(details)))
@@ -195,6 +210,24 @@ def eval_cases(cases: List[Tuple[Dict[str, Any], str, Any, List[str]]], rep: Rep
             rep.case(ntkey if nt else None, lab, sample)
 
 
+def _maybe_pc_top(st: S.Stream, case: Dict[str, Any], labels: List[str]) -> None:
+    """One case in thirty-two places the instruction so that its bytes reach or cross the top of the external
+    space (PC in 0xFFFF8..0xFFFFF): instruction fetch across the end of memory."""
+    if not st.chance(1, 32):
+        return
+    old_pc = case["regs"]["PC"]
+    new_pc = 0xFFFF8 + st.below(8)
+    moved = []
+    for a, v in case["mem"]:
+        if old_pc <= a < old_pc + 16:
+            moved.append([new_pc + (a - old_pc), v])   # may exceed 0xFFFFF: both buses canonicalise
+        else:
+            moved.append([a, v])
+    case["mem"] = moved
+    case["regs"]["PC"] = new_pc
+    labels.append("pc:top-of-memory")
+
+
 def _maybe_low_power(st: S.Stream, case: Dict[str, Any], labels: List[str]) -> None:
     """One case in sixteen starts in the low-power state ("every architectural state"): the instruction is
     executed by both cores' single-instruction entry points with the halted flag already set."""
@@ -217,6 +250,7 @@ def _shard(task: Tuple[int, int, int, str]) -> Report:
             st = S.Stream(seed, shard, j)
             case, labels = S.gen_state(st, code, mn, imax=12)
             _maybe_low_power(st, case, labels)
+            _maybe_pc_top(st, case, labels)
             op = code[1] if pre is not None else code[0]
             where = where_of(pre, op, mn)
             b2 = code[2] if pre is not None and len(code) > 2 else (code[1] if pre is None and len(code) > 1 else 0)
@@ -242,6 +276,7 @@ def _shard(task: Tuple[int, int, int, str]) -> Report:
                     st = S.Stream(seed, idx)
                     case, labels = S.gen_state(st, code, mn, imax=12)
                     _maybe_low_power(st, case, labels)
+                    _maybe_pc_top(st, case, labels)
                     where = where_of(pre, op, mn)
                     cases.append((case, where, f"{pre}:{op:02X}:{b2:02X}:{labels[-1]}", labels + [f"pre:{'yes' if pre else 'no'}"]))
                     if len(cases) >= 2048:
@@ -342,6 +377,8 @@ def _program_shard(task: Tuple[int, int, str, int]) -> Report:
         st = S.Stream(seed, 0xCF10, shard, pi)
         case = skeleton_program(st)
         _record_program(rep, case, "skeleton", pi % 53 == 0)
+        case = selfmod_program(S.Stream(seed, 0x5E1F, shard, pi))
+        _record_program(rep, case, "selfmod", pi % 59 == 0)
     return rep
 
 
@@ -361,13 +398,48 @@ def _check_templates() -> None:
     if _templates_checked:
         return
     want = [(_t_call(0x1234), "CALL"), (_t_callf(0x12345), "CALLF"), (_t_jp(0x1234), "JP"), (_t_jpf(0x12345), "JPF"),
-            (_T_RET, "RET"), (_T_RETF, "RETF"), (_T_NOP, "NOP"), (FILLERS[0], "MV"), (FILLERS[1], "ADD"),
+            (_T_RET, "RET"), (_T_RETF, "RETF"), (_T_NOP, "NOP"), (bytes([0xA8, 0x34, 0x12, 0x05]), "MV"), (bytes([0x97]), "SC"), (FILLERS[0], "MV"), (FILLERS[1], "ADD"),
             (FILLERS[2], "MV"), (FILLERS[4], "INC"), (FILLERS[5], "TEST"), (FILLERS[6], "MV")]
     for code, mn in want:
         r = TP.tokens(code + G.NOP_PAD)
         if r is None or TP.mnemonic(r[0]) != mn or r[1] != len(code):
             raise HarnessError(f"control-flow template {code.hex()} does not decode as {mn}: {r}")
     _templates_checked = True
+
+
+def selfmod_program(st: S.Stream) -> Dict[str, Any]:
+    """A program that stores into the bytes of an instruction it is about to execute (operand or opcode byte of the
+    next or the second-next instruction).  Both cores must execute the bytes that are in memory when the instruction
+    is reached."""
+    _check_templates()
+    base = (0x10000 * (1 + st.below(13))) | (0x0200 + (st.below(0xF000) & 0xFFF0))
+    v = 1 + st.below(254)
+    mem: List[List[int]] = []
+
+    def place(addr: int, data: bytes) -> int:
+        for b in data:
+            mem.append([addr & 0xFFFFF, b])
+            addr += 1
+        return addr
+
+    gap = st.below(3)                      # 0: next instruction, 1..2: a later one
+    victim = base + 2 + 4 + gap            # address of the victim instruction (after MV A,v ; MV [lmn],A ; gap NOPs)
+    kind = st.below(3)
+    if kind == 0:                          # patch the immediate of `MV A,00`
+        target, victim_code, v_store = victim + 1, bytes([0x08, 0x00]), v
+    elif kind == 1:                        # patch the opcode: `MV A,33` (08 33) becomes `ADD A,33` (40 33)
+        target, victim_code, v_store = victim, bytes([0x08, 0x33]), 0x40
+    else:                                  # patch the opcode of a NOP into INC-less 1-byte form: NOP (00) -> SC (97)? keep length 1
+        target, victim_code, v_store = victim, bytes([0x00]), 0x00 if st.chance(1, 4) else 0x97
+    a = place(base, bytes([0x08, v_store]))
+    a = place(a, bytes([0xA8, target & 0xFF, (target >> 8) & 0xFF, (target >> 16) & 0x0F]))
+    a = place(a, _T_NOP * gap)
+    a = place(a, victim_code)
+    place(a, _T_NOP * 6)
+    steps = 2 + gap + 1 + 1
+    regs = {"BA": st.word(), "I": st.word(), "X": st.pointer(False)[0], "Y": st.pointer(False)[0],
+            "U": st.pointer(False)[0], "S": 0xE0000 + st.below(0x8000) * 2, "F": st.u32() & 0xFF, "PC": base}
+    return {"regs": regs, "power": "running", "seed": st.u32(), "mem": mem, "steps": steps}
 
 
 def skeleton_program(st: S.Stream) -> Dict[str, Any]:
